@@ -39,7 +39,7 @@ Proof. eexists. split; [vm_compute; reflexivity | vm_compute; discriminate]. Qed
 (* ---- C10 (37011b8): message-level error reported the counter AFTER it was advanced ---- *)
 Section C10_legacy.
 Variable cd : codec.
-Definition cfg1 : cfgT := [(2, mkfc LLVAR (Some 0) PTStr [] PNone false)].
+Definition cfg1 : cfgT := [(2, mkfc LLVAR (Some 0) PTStr [] PNone D43None)].
 Definition inext_legacy (r : reader) : result (reader * iout) :=
   do x <- rnext 3 100 r;
   let '(r', o) := x in
@@ -75,7 +75,7 @@ Definition field_to_iso_legacy (c : fieldcfg) (s : str) (cd : codec) : result by
   do p <- encode cd (fmt0 ls (N.of_nat (length s))); do b <- encode cd s; Ok (p ++ b).
 Example C02_refuted :      (* LLVAR value of 100 characters: the prefix is the three characters "100" *)
   let cd := mkcodec CU.gen.GenCodec.tbl_latin_1 in
-  let c := mkfc LLVAR (Some 0) PTStr [] PNone false in
+  let c := mkfc LLVAR (Some 0) PTStr [] PNone D43None in
   (exists b, field_to_iso_legacy c (repeat 49%N 100) cd = Ok b /\ firstn 3 b = [x31; x30; x30] /\ length b = 103)
   /\ field_to_iso c (VStr (repeat 49%N 100)) cd = Raise EData.
 Proof. split; [eexists; vm_compute; auto | vm_compute; reflexivity]. Qed.
@@ -134,7 +134,7 @@ Definition iso_to_field_legacy (bit : nat) (c : fieldcfg) (data : bytes) (cd : c
   end.
 Example C08_refuted :      (* b'-21234' as DE2 (LLVAR): value '', increment 0 — DE3 then re-reads the same six bytes *)
   let cd := mkcodec CU.gen.GenCodec.tbl_latin_1 in
-  let c := mkfc LLVAR (Some 0) PTStr [] PNone false in
+  let c := mkfc LLVAR (Some 0) PTStr [] PNone D43None in
   let data := map byte_of_N [45;50;49;50;51;52]%N in
   iso_to_field_legacy 2 c data cd = Ok ([(KDE 2, VStr [])], 0%Z) /\ iso_to_field 2 c data cd = Raise EData.
 Proof. vm_compute. auto. Qed.
